@@ -328,6 +328,98 @@ def sel_c11(mm):
     return mm["stage"] == "wire" and (ev.get("enc") in ("to_io", "to_eio") or ev.get("dec") in ("from_io", "from_eio")) and "rt" in mm.get("tags", [])
 
 
+# --------------------------------------------------------------------------- schema (C14, C15, C16, C19)
+def mc_schema(ctx, emit=False):
+    return tlc_mc(ctx, "schema-trees" + ("-vec" if emit else ""), "MC_Schema", tmpl("MC_Schema", Depth=ctx.pick(1, 2), Emit="TRUE" if emit else "FALSE"),
+                  want_prefix='<<"VEC"' if emit else None, workers=8)
+
+
+def schema_vectors(ctx):
+    cargo_build(ctx, "h_schema")
+    r = mc_schema(ctx, emit=True)
+    lines = [core.unescape_tla(l[len('<<"VEC", "'):-3]) for l in r.pop("lines")]
+    r["lines"] = []
+    r["vectors"] = len(lines)
+    d = os.path.join(WORK, "vec")
+    os.makedirs(d, exist_ok=True)
+    per = (len(lines) + NSH - 1) // NSH
+    cmds = []
+    for i in range(NSH):
+        chunk = lines[i * per:(i + 1) * per]
+        if not chunk:
+            continue
+        p = os.path.join(d, f"schemavec-{ctx.tier}-{i}.json")
+        open(p, "w").write("\n".join(chunk) + "\n")
+        cmds.append(([hbin("h_schema"), "trees-vec", "--in", p], f"schemavec-{i}.ndjson"))
+    return trace_stage(ctx, "schema-vectors", cmds, "Trace_Schema")
+
+
+def schema_trees(ctx):
+    cargo_build(ctx, "h_schema")
+    n = ctx.pick(80, 1500)
+    cmds = [([hbin("h_schema"), "trees", "--n", str(n), "--seed", str(ctx.seed * 1000 + i), "--depth", str(3 + i % 3)], f"trees-{i}.ndjson") for i in range(NSH)]
+    return trace_stage(ctx, "schema-trees", cmds, "Trace_Schema")
+
+
+def schema_conform(ctx):
+    cargo_build(ctx, "h_schema")
+    reps = ctx.pick(2, 40)
+    cmds = [([hbin("h_schema"), "conform", "--reps", str(reps), "--seed", str(ctx.seed * 1000 + i)], f"conform-{i}.ndjson") for i in range(ctx.pick(4, NSH))]
+    return trace_stage(ctx, "schema-conform", cmds, "Trace_Schema")
+
+
+def _tags(mm):
+    return set(mm.get("tags", []))
+
+
+def _schema_tool(mm):
+    if _tags(mm) & {"harness", "specmodel"}:
+        raise core.ToolError(f"harness/spec self-check failed in the schema trace: {mm.get('tags')}")
+
+
+def sel_c14(mm):
+    _schema_tool(mm)
+    return bool(_tags(mm) & {"conform", "consume", "panic14", "crash"})
+
+
+def sel_c15(mm):
+    _schema_tool(mm)
+    return bool(_tags(mm) & {"enc_borrowed", "enc_owned", "conv", "dec", "panic15", "crash"})
+
+
+def sel_c16(mm):
+    _schema_tool(mm)
+    return bool(_tags(mm) & {"key_owned", "key_const", "key_type", "crash"})
+
+
+def sel_c19(mm):
+    _schema_tool(mm)
+    return bool(_tags(mm) & {"used", "render", "crash"})
+
+
+def run_schema_trees(ctx):
+    schema_vectors(ctx)
+    schema_trees(ctx)
+
+
+def run_c14(ctx):
+    mc_schema(ctx)
+    schema_conform(ctx)
+
+
+def run_c16(ctx):
+    schema_vectors(ctx)
+    schema_trees(ctx)
+    schema_conform(ctx)
+
+
+SCHEMA_ASSUME = [
+    "TLC, CommunityModules, the Python driver are trusted; the harness walks the borrowed and the owned schema with its own code (cross-checked: borrowed walk = the tree it built)",
+    "the specification's schema encoder and parser are checked to be mutually inverse on every event (tag specmodel => tool error)",
+    "struct/enum type names are not part of conformance (the statement lists kinds, field/variant names, order, arity, element types)",
+    "serde-derive and the third-party Serialize impls (uuid, chrono, heapless, nalgebra) are taken as they are: they are the 'what Serialize writes' side",
+]
+
 # --------------------------------------------------------------------------- properties
 
 
@@ -351,6 +443,19 @@ def run_c03(ctx):
 
 
 REGISTRY = {
+    "C14": dict(run=run_c14, select=sel_c14, assumptions=SCHEMA_ASSUME, replay_pkg="h_schema",
+                rule="conform events: ~110 (type, value) pairs per repetition: every built-in Schema implementor (ints, NonZero*, floats, char, str/String/PathBuf, unit, "
+                     "tuples 1-6, arrays, slices/Vec/sets, maps, Option, Result, references, ranges, heapless 0.7/0.8, uuid, chrono, nalgebra, Key, the schema types) and "
+                     "derived structs/enums of every form with every variant; schema walked from the borrowed SCHEMA; call tree from a recording serde Serializer"),
+    "C15": dict(run=run_schema_trees, select=sel_c15, assumptions=SCHEMA_ASSUME, replay_pkg="h_schema",
+                rule="schema_tree events: every tree of MC_Schema (all kinds as root and child, depth<=1..2) as a vector, plus random trees (depth 3-6, fan-out<=5, "
+                     "names empty/ASCII/multi-byte) and their single-node mutants; distinct event content"),
+    "C16": dict(run=run_c16, select=sel_c16, assumptions=SCHEMA_ASSUME, replay_pkg="h_schema",
+                rule="schema_tree events as C15 with both hashers (const via the cfg-guarded hook, owned) on every tree, every (bounded) single-node mutant and a path "
+                     "mutant, each judged against the spec key of that very tree; conform events add Key::for_path::<T> for the type corpus"),
+    "C19": dict(run=run_schema_trees, select=sel_c19, assumptions=SCHEMA_ASSUME, replay_pkg="h_schema",
+                rule="schema_tree events as C15: all_used_types as a set against Subtrees(tree), to_pseudocode/Display for termination, equality, and presence of the "
+                     "top-level name and direct field/variant names"),
     "C11": dict(run=run_c11, select=sel_c11, assumptions=WIRE_ASSUME + [
                     "a reader that reports an error at offset f is equivalent to a stream that ends at f (both become DeserializeUnexpectedEnd); model-checked in MC_Transport",
                     "ErrorKind::Interrupted retries are std's read_exact contract and are not injected",
